@@ -21,6 +21,29 @@ def _c10a_replay(tier, seed):
                 reproduced=p.stdout.strip().startswith("(True"))
 
 
+def _certs_bounded(prop):
+    def run(tier, seed):
+        import subprocess, os, json
+        here = os.path.dirname(os.path.dirname(os.path.abspath(__file__)))
+        cmd = ["/venv/bin/python", os.path.join(here, "bounded", "certs_v1.py")] + (["--full"] if tier == "thorough" else [])
+        p = subprocess.run(cmd, capture_output=True, text=True, timeout=900)
+        try:
+            d = json.loads(p.stdout)
+        except ValueError:
+            return dict(name="bounded-differential-certs-v1", bounded=True, status="checker-error", error=(p.stdout + p.stderr)[-600:])
+        mine = [f for f in d["failures"] if f["prop"] == prop]
+        out = dict(name="bounded-differential-certs-v1", bounded=True, bound=d["bound"], stats=d["stats"],
+                   status="violation" if mine else "ok",
+                   note="real code, real secp256k1 signatures, oracle by construction; NOT counted as proved")
+        if mine:
+            out["witness"] = mine[0]
+            out["what"] = mine[0]["what"]
+            out["replay_cmd"] = "/venv/bin/python bounded/certs_v1.py --replay <this file>"
+        return out
+    run.__name__ = "certs_bounded_" + prop
+    return run
+
+
 PROPS = {
     "C01": dict(level="proof", assumptions=COMMON + [A_FW, A_BTC], trusted_base=TB,
                 explanation="contracts on the real signing path, discharged per function"),
@@ -58,6 +81,19 @@ PROPS = {
                                                        "changepin and the public-key export (pubkeys.py) are NOT covered yet; 'the operation is carried out when "
                                                        "the preconditions hold' only as: normal return of do_unlock => exactly one unlock"],
                 trusted_base=TB, explanation="dominance of every destructive device call by its preconditions, as assertions at the call sites over all paths"),
+    "C16": dict(level="proof", assumptions=COMMON + ["A-CRYPTO: element validity is an uninterpreted predicate",
+                                                       "scope: version-1 certificates: _parse terminates (unwinding assertion over the finite universe of the four "
+                                                       "element names) and establishes a cycle-free path to the root for every target, which bounds both loops of "
+                                                       "validate_and_get_values; the version-2 element classes (unbounded names), from_jsonfile's version dispatch "
+                                                       "and the save/load round trip are NOT covered yet"],
+                trusted_base=["spec/certs.py"],
+                explanation="v1 element names are restricted to four constants, so the element map is a finite map and paths are finite formulas; "
+                            "while-loops are unrolled with an unwinding assertion (complete when it is discharged)",
+                extras=[_certs_bounded("C16")]),
+    "C06": dict(level="proof", assumptions=COMMON + ["A-CRYPTO: secp256k1 ECDSA / HMAC tweak / key parsing as uninterpreted cert.link_valid, cert.pubkey_of_hex"],
+                trusted_base=["spec/certs.py"],
+                explanation="verdict of every target compared with a recursive specification over the finite element map",
+                extras=[_certs_bounded("C06")]),
     "C13": dict(level="proof", assumptions=COMMON + [A_FW], trusted_base=TB + ["spec/firmware.py"],
                 explanation="reply fields are equated with the answers recorded in the ghost log, selectors from the firmware headers"),
 }
